@@ -12,7 +12,8 @@
     Defect switches (ON = the behaviour that was found in the code, OFF = what the
     property demands):
       f_prefix  the link handed back by the shard still has the hex shard prefix in
-                [Name]; sizes computed from it are [pad] name bytes too large (C16-1)
+                [Name]; sizes computed from it are [pad] name bytes too large, and the
+                gate compares with [< 0] (C16-1; the repair uses the entry name and [<= 0])
       f_thresh  DynamicDirectory.AddChild's HAMT->basic path drops the per-directory
                 HAMTShardingSize (C16-2)
       f_gate    HAMT->basic is considered only when sizeChange + delta < 0 (C16-3)
@@ -154,7 +155,9 @@ Section Dyn.
     if g_mode c =? 2 then canMax && (0 <? ml) && (newTotal <=? ml) else
     let delta := (match nv with Some v => link_size c (nlen k) v | None => 0 end)
                  - (match old with Some w => link_size c (stored_nlen k) w | None => 0 end) in
-    let gate := if f_gate fl then sc + delta <? 0 else true in
+    (* the repair of C16-1 also turned the gate's [< 0] into [<= 0]: with bare names a net change
+       of 0 means the size is back to what it was before the conversion *)
+    let gate := if f_gate fl then (if f_prefix fl then sc + delta <? 0 else sc + delta <=? 0) else true in
     (* sizeBelowThreshold: Data field (block mode) + every link (bare names) + delta <= threshold;
        the early exit of the enumeration does not change the answer: every term is positive *)
     let below := base_size c + total_size c (walk (Node cs)) + delta <=? eff c th in
